@@ -140,6 +140,50 @@ pub fn run_case(case: &Value) -> Vec<Fail> {
                 let calls = case["calls"].as_array().unwrap();
                 let col = val(&case["col"], u);
                 let (lo, hi) = (&case["lo"], &case["hi"]);
+                let win = case.get("win").and_then(|v| v.as_u64()).unwrap_or(0) as usize;
+                if win > 0 {
+                    // a narrow window of a giant array: few columns, giant stride
+                    match case["kind"].as_str().unwrap() {
+                        "rows" => {
+                            {
+                                let v = t.view((1, 0), (1 + win, nr));
+                                drive_iter(v.rows(), calls, u, None, &mut fails, "narrow TooDeeView::rows", lo, hi);
+                            }
+                            if fails.is_empty() {
+                                let mut v = t.view_mut((1, 0), (1 + win, nr));
+                                drive_iter(v.rows_mut(), calls, u, None, &mut fails, "narrow TooDeeViewMut::rows_mut", lo, hi);
+                            }
+                        }
+                        "col" => {
+                            let c = match col {
+                                Some(c) => c,
+                                None => continue,
+                            };
+                            {
+                                let v = t.view((1, 0), (1 + win, nr));
+                                drive_iter(v.col(c), calls, u, Some(&|i, n| i[n]), &mut fails, "narrow TooDeeView::col", lo, hi);
+                            }
+                            if fails.is_empty() {
+                                let mut v = t.view_mut((1, 0), (1 + win, nr));
+                                drive_iter(v.col_mut(c), calls, u, Some(&|i, n| i[n]), &mut fails, "narrow TooDeeViewMut::col_mut", lo, hi);
+                            }
+                        }
+                        _ => {
+                            {
+                                let v = t.view((1, 0), (1 + win, nr));
+                                drive_iter(v.cells(), calls, u, None, &mut fails, "narrow TooDeeView::cells", lo, hi);
+                            }
+                            if fails.is_empty() {
+                                let mut v = t.view_mut((1, 0), (1 + win, nr));
+                                drive_iter(v.cells_mut(), calls, u, None, &mut fails, "narrow TooDeeViewMut::cells_mut", lo, hi);
+                            }
+                        }
+                    }
+                    if !fails.is_empty() {
+                        return fails;
+                    }
+                    continue;
+                }
                 match case["kind"].as_str().unwrap() {
                     "rows" => {
                         drive_iter(t.rows(), calls, u, None, &mut fails, "TooDee::rows", lo, hi);
